@@ -20,7 +20,7 @@ class Prop(SeqProp):
     pid = "C17"
     model = "generic"
     anchors = ["windpyutils/generic.py"]
-    quick_cases = 250
+    quick_cases = 1000
     thorough_cases = 2500
     rule = ("score vectors with ties and zeros, n<=8 (thorough n<=10; all vectors over {0,1,2} up to n=5 exhaustively), the "
             "whole sorted_combinations stream (combination + key) and min-combination searches for intervals around every "
